@@ -9,11 +9,11 @@ def run(chk):
     ok2, bad_img = evo_corr.run_image_corr(chk, rng, 2000 if thorough else 400, dims=(2, 3, 4, 5))
     chk.obligation('correspondence: GetImage = model image at the configured density', ok2 and not bad_img, 'first: %r' % bad_img[:3])
     found = 0
-    for _ in range(120 if thorough else 30):
+    for _ in range(160 if thorough else 44):
         n = rng.choice([2, 3, 4, 5])
-        m = rng.randint(2, 12 if n * 12 <= 50 else 50 // n)
+        m = rng.randint(2, 12)      # the whole configured range for every dimension (beyond N*m = 52 the deepest digits of a double are zero, still on the grid)
         lo, hi = H.random_box(rng, n, nice=rng.random() < 0.5)
-        case = {'n': n, 'lo': lo, 'hi': hi, 'objective': H.random_objective(rng, n, lo=lo, hi=hi), 'r': round(rng.uniform(1.5, 4), 2), 'eps': 1e-9,
+        case = {'n': n, 'lo': lo, 'hi': hi, 'objective': H.random_objective(rng, n, lo=lo, hi=hi), 'r': round(rng.uniform(1.5, 4), 2), 'eps': rng.choice([1e-9, 1e-5, 5e-4, 1e-3, 0.01]),
                 'iters': rng.choice([12, 25, 40]), 'density': m}
         fails = O.guarded(O.c20, case)
         chk.evaluations += case['iters']
